@@ -360,7 +360,21 @@ func gen(r *hv.Rng, i int, tier string) (string, hv.Val) {
 				// accepted by the reader: a complete, decodable body
 				if v.n > 0 {
 					w.Write(data)
-					w.WriteString("\r\n0\r\n\r\n")
+					switch r.Intn(7) {
+					case 3: // trailer fields
+						w.WriteString("\r\n0\r\nX-T: v\r\nX-U: w x\r\n\r\n")
+						tags["trailer-ok"] = true
+					case 4: // malformed trailer line, then an embedded request
+						w.WriteString("\r\n0\r\nX\r\n" + evilReq)
+						kind = 4
+						tags["trailer-bad"] = true
+					case 5: // the embedded request where the trailer (or the final CRLF) should be
+						w.WriteString("\r\n0\r\n" + evilReq)
+						kind = 4
+						tags["trailer-bad"] = true
+					default:
+						w.WriteString("\r\n0\r\n\r\n")
+					}
 				} else {
 					w.WriteString("\r\n")
 				}
@@ -404,6 +418,7 @@ func gen(r *hv.Rng, i int, tier string) (string, hv.Val) {
 			}
 		}
 		if (kind == 3 || kind == 4 || typ == 8) && src == 1 {
+			// not forwarded: a failed forward leaves a backend connection behind that may take a later case's plan
 			src = 0
 		}
 		if rd == 2 && len(body) < 2 {
@@ -440,7 +455,7 @@ func gen(r *hv.Rng, i int, tier string) (string, hv.Val) {
 		scripts = append(scripts, script(id, src, rd, status, hdrs, pieces, errf))
 	}
 	class := fmt.Sprintf("n%d", n)
-	for _, t := range []string{"evilbody", "expect-withheld", "expect-sent", "malformed", "shortbody", "badexpect", "proxied", "chunk-edge-ok", "chunk-edge-bad"} {
+	for _, t := range []string{"evilbody", "expect-withheld", "expect-sent", "malformed", "shortbody", "badexpect", "proxied", "chunk-edge-ok", "chunk-edge-bad", "trailer-ok", "trailer-bad"} {
 		if tags[t] {
 			class += "-" + t
 		}
